@@ -20,6 +20,8 @@ Semantics implemented (ssh_config(5), as far as property C40 names them):
       passes=1, raw_host=False: OpenSSH without canonicalisation / Match final.
 """
 
+import re
+
 HASH = "\x00C\x00"          # placeholder for the %C digest (its exact definition is not compared)
 
 TOKENS = {
@@ -37,25 +39,17 @@ class Env:
         self.user, self.host, self.home, self.fqdn = user, host, home, fqdn
 
 
+_GLOB_CACHE = {}
+
+
 def glob_match(pat, s):
     """'*' = any run, '?' = exactly one character; everything else literal."""
-    memo = {}
-
-    def m(i, j):
-        k = (i, j)
-        if k in memo:
-            return memo[k]
-        if i == len(pat):
-            r = j == len(s)
-        elif pat[i] == "*":
-            r = m(i + 1, j) or (j < len(s) and m(i, j + 1))
-        elif j < len(s) and (pat[i] == "?" or pat[i] == s[j]):
-            r = m(i + 1, j + 1)
-        else:
-            r = False
-        memo[k] = r
-        return r
-    return m(0, 0)
+    rx = _GLOB_CACHE.get(pat)
+    if rx is None:
+        rx = re.compile("".join(".*" if c == "*" else "." if c == "?" else re.escape(c) for c in pat),
+                        re.DOTALL)
+        _GLOB_CACHE[pat] = rx
+    return rx.fullmatch(s) is not None
 
 
 def pattern_list_matches(patterns, target):
